@@ -100,9 +100,25 @@ func fifoEpisode(r *vrec, rng *rand.Rand, initCap, maxCap, nops int) {
 			if rng.Intn(2) == 0 {
 				initialBufferCapacity = 1 + rng.Intn(8)
 			}
-			q.Purge()
+			if rng.Intn(2) == 0 {
+				vs := q.PurgeValues()
+				r.w.WriteString("PV " + strconv.Itoa(initialBufferCapacity) + " " + strconv.Itoa(len(vs)))
+				for k, v := range vs {
+					r.w.WriteString(" " + strconv.Itoa(v.(int)))
+					if k >= len(ref) || ref[k] != v.(int) {
+						r.viol("fifo.purge-values", i, "PurgeValues returned %v, pending were %v", vs, ref)
+					}
+				}
+				if len(vs) != len(ref) {
+					r.viol("fifo.purge-values", i, "PurgeValues returned %d values, %d were pending", len(vs), len(ref))
+				}
+				r.w.WriteString("\n")
+				r.stats["fifo.purgevalues"]++
+			} else {
+				q.Purge()
+				r.p("P %d", initialBufferCapacity)
+			}
 			ref = nil
-			r.p("P %d", initialBufferCapacity)
 			r.stats["fifo.purge"]++
 		case k < 4 && i > nops/2:
 			q.Close()
@@ -212,9 +228,21 @@ func heapEpisode(r *vrec, rng *rand.Rand, nops int) {
 		k := rng.Intn(1000)
 		switch {
 		case k < 4:
-			q.Purge()
+			if rng.Intn(2) == 0 {
+				vs := q.PurgeValues()
+				r.w.WriteString("HPV " + strconv.Itoa(len(vs)))
+				for _, v := range vs {
+					r.w.WriteString(" " + strconv.Itoa(v.(int)))
+				}
+				r.w.WriteString("\n")
+				if len(vs) != len(ref) {
+					r.viol("heap.purge-values", i, "PurgeValues returned %d values, %d were pending", len(vs), len(ref))
+				}
+			} else {
+				q.Purge()
+				r.p("HP")
+			}
 			ref = nil
-			r.p("HP")
 			r.stats["heap.purge"]++
 		case k < 5 && i > nops/2:
 			q.Close()
